@@ -20,6 +20,8 @@ type CodeWriter struct {
 	// semiOmitted is true while the last thing a printer did was to leave out an
 	// optional semicolon (no token has been written since)
 	semiOmitted bool
+	// prevByte is the byte written before lastByte (0 if there is none)
+	prevByte byte
 	// lastInt is true while the buffer ends with text made of decimal digits only
 	// (an integer literal): a dot written right after it would be read as its
 	// fraction point
@@ -53,6 +55,11 @@ func (cw *CodeWriter) write(s string, isToken bool) {
 		cw.commitMapping()
 	}
 	cw.Builder.WriteString(s)
+	if len(s) >= 2 {
+		cw.prevByte = s[len(s)-2]
+	} else {
+		cw.prevByte = cw.lastByte
+	}
 	cw.lastByte = s[len(s)-1]
 	cw.lastInt = isDigits(s)
 	if isToken {
@@ -75,6 +82,7 @@ func (cw *CodeWriter) restoreSemi(next byte) {
 	switch next {
 	case '(', '[', '+', '-', '`':
 		cw.Builder.WriteByte(';')
+		cw.prevByte = cw.lastByte
 		cw.lastByte = ';'
 		cw.lastInt = false
 		if cw.Mapper != nil {
@@ -97,13 +105,16 @@ func isDigits(s string) bool {
 // `a - -b` must not be written as `a--b`, nor `a + ++b` as `a+++b`. A space is
 // written when the next token starts with the sign the buffer ends with, and
 // between an integer literal and a dot (`5 .x` is the member x of 5, `5.x` is a
-// malformed number).
+// malformed number), and between `<!` and a minus sign (`a<!--b` starts an
+// HTML-like comment in JavaScript engines).
 func (cw *CodeWriter) separateSigns(next byte) {
 	signs := (next == '+' || next == '-') && cw.lastByte == next
-	if !signs && !(next == '.' && cw.lastInt) {
+	htmlComment := next == '-' && cw.lastByte == '!' && cw.prevByte == '<'
+	if !signs && !htmlComment && !(next == '.' && cw.lastInt) {
 		return
 	}
 	cw.Builder.WriteByte(' ')
+	cw.prevByte = cw.lastByte
 	cw.lastByte = ' '
 	cw.lastInt = false
 	if cw.Mapper != nil {
@@ -124,6 +135,7 @@ func (cw *CodeWriter) WriteRune(r rune) {
 	cw.separateSigns(byte(r))
 	cw.commitMapping()
 	cw.Builder.WriteRune(r)
+	cw.prevByte = cw.lastByte
 	cw.lastByte = byte(r)
 	cw.lastInt = r >= '0' && r <= '9'
 	cw.semiOmitted = false
